@@ -14,6 +14,13 @@ GEN = {
                  "-funcs", "reduceOnce,add,sub,neg,mul,power2Round,scalePower2,divBy2Gamma2,decompose,highBits,lowBits,"
                            "makeHint,useHint,centeredAbs,centeredMax"],
     },
+    "Polyval": {
+        "owner": ["C01"],
+        "args": ["-pkg", "internal/aead", "-files", "polyval.go", "-ns", "TinkVerif.Gen.Polyval",
+                 "-structs", "fieldElement",
+                 "-consts", "PolyvalBlockSize,u32Sel0,u32Sel1,u32Sel2,u32Sel3,u64Sel0,u64Sel1,u64Sel2,u64Sel3",
+                 "-funcs", "mul32,mul64,polyvalDot"],
+    },
     "SliceFacts": {"owner": ["C19"], "tool": "extract", "args": ["slicefacts"]},
     "MutFacts": {"owner": ["C18"], "tool": "extract", "args": ["mutfacts"]},
     "EnumTables": {
@@ -21,6 +28,82 @@ GEN = {
         "args": ["enumtables"],
     },
 }
+
+
+# ---- byte-level glue, translated by go/harness/gluetr (flags: see the header of gluetr/main.go) and tied to the hand
+# models by TinkVerif/Props/GlueTie/*.lean.  A region is `name=function|start regexp|end regexp|output variables`;
+# each regexp must match exactly one statement of the function.
+def _prefix_keys():
+    a = ["-ns", "TinkVerif.Gen.GluePrefixKeys",
+         "-pkg", "internal/outputprefix", "-sub", "Outputprefix", "-funcs", "calculatePrefixBytes,Tink,Legacy"]
+    shapes = {
+        "VariantTink,VariantCrunchy,VariantNoPrefix": ["aead/aesctrhmac", "aead/aesgcm", "aead/aesgcmsiv", "aead/chacha20poly1305",
+                                                       "aead/xchacha20poly1305", "daead/aessiv", "hybrid/ecies", "hybrid/hpke"],
+        "VariantTink,VariantCrunchy,VariantLegacy,VariantNoPrefix": ["mac/aescmac", "mac/hmac", "signature/ecdsa", "signature/ed25519",
+                                                                     "signature/rsassapkcs1", "signature/rsassapss"],
+        "VariantTink,VariantNoPrefix": ["aead/xaesgcm", "signature/compositemldsa", "signature/slhdsa"],
+        "VariantTink,VariantNoPrefix,VariantNoPrefixWithPrehashID": ["signature/mldsa"],
+        "tinkpb.OutputPrefixType_TINK,tinkpb.OutputPrefixType_LEGACY,tinkpb.OutputPrefixType_RAW,tinkpb.OutputPrefixType_CRUNCHY":
+            ["internal/protoserialization"],
+    }
+    for consts, pkgs in shapes.items():
+        for p in pkgs:
+            a += ["-pkg", p, "-sub", p.split("/")[-1].capitalize() + "Key", "-consts", consts, "-funcs", "calculateOutputPrefix"]
+    return a
+
+
+GEN.update({
+    "GlueFraming": {
+        "owner": ["C01", "C02", "C04", "C05"], "tool": "gluetr",
+        "args": ["-ns", "TinkVerif.Gen.GlueFraming",
+                 "-pkg", "internal/outputprefix", "-sub", "Outputprefix", "-funcs", "calculatePrefixBytes,Tink,Legacy",
+                 "-pkg", "core/cryptofmt", "-sub", "Cryptofmt",
+                 "-consts", "NonRawPrefixSize,LegacyStartByte,TinkStartByte,tinkpb.OutputPrefixType_TINK,tinkpb.OutputPrefixType_LEGACY,"
+                            "tinkpb.OutputPrefixType_RAW,tinkpb.OutputPrefixType_CRUNCHY",
+                 "-funcs", "OutputPrefix"],
+    },
+    "GlueStream": {
+        "owner": ["C07"], "tool": "gluetr",
+        "args": ["-ns", "TinkVerif.Gen.GlueStream",
+                 "-pkg", "streamingaead/subtle/noncebased", "-sub", "Noncebased", "-funcs", "generateSegmentNonce"],
+    },
+    "GlueAead": {
+        "owner": ["C01", "C02"], "tool": "gluetr",
+        "args": ["-ns", "TinkVerif.Gen.GlueAead",
+                 "-pkg", "aead/aesctrhmac", "-sub", "Aesctrhmac", "-funcs", "aadSizeInBits",
+                 "-pkg", "internal/aead", "-sub", "Gcmsiv",
+                 "-region", r"tagMask=computeTag|^subtle\.XORBytes\(polyval, polyval, nonce\)|^polyval\[.*\] &= |polyval",
+                 "-region", r"ctrInit=aesCTR|^var counter |^counterInc := |counter,counterInc",
+                 "-region", r"ctrStep=aesCTR|^counterInc\+\+|^binary\.LittleEndian\.PutUint32\(counter|counter,counterInc",
+                 "-region", r"lengthBlock=computePolyval|^var lengthBlock |^binary\.LittleEndian\.PutUint64\(lengthBlock\[8:\]|lengthBlock",
+                 "-region", r"nonceBlockInit=deriveKeys|^var nonceBlock |^copy\(nonceBlock|nonceBlock",
+                 "-region", r"kdfCounter=deriveKeys|^binary\.LittleEndian\.PutUint32\(nonceBlock|^binary\.LittleEndian\.PutUint32\(nonceBlock|nonceBlock",
+                 "-pkg", "aead/xaesgcm", "-sub", "Xaesgcm", "-vars", "derivationBlock1Prefix,derivationBlock2Prefix",
+                 "-opaque", "derivePerMessageKey:a.prf.ComputePRF=prf", "-funcs", "derivePerMessageKey"],
+    },
+    "GlueKwp": {
+        "owner": ["C08"], "tool": "gluetr",
+        "args": ["-ns", "TinkVerif.Gen.GlueKwp",
+                 "-pkg", "kwp/subtle", "-sub", "KwpGo", "-consts", "MinWrapSize,MaxWrapSize,roundCount,ivPrefix", "-funcs", "wrappingSize",
+                 "-region", r"wrapBuffer=Wrap|^wrapped := make|^copy\(wrapped\[8:\], data\)|wrapped",
+                 "-region", r"aivInit=Wrap|^var buf \[16\]byte|^binary\.BigEndian\.PutUint32\(buf\[4:8\]|buf",
+                 "-region", r"roundXor=Wrap|^roundCounter\+\+|^subtle\.XORBytes\(buf\[4:8\]|buf,roundCounter,roundCounterBytes"],
+    },
+    "GlueCmac": {
+        "owner": ["C04", "C08", "C15"], "tool": "gluetr",
+        "args": ["-ns", "TinkVerif.Gen.GlueCmac",
+                 "-pkg", "internal/mac/aescmac", "-sub", "Aescmac", "-consts", "BlockSize,mul,pad", "-funcs", "mulByX",
+                 "-region", r"lastBlockInit=Compute|^var lastBlock |^var lastBlock |lastBlock",
+                 "-region", r"padLast=Compute|^copy\(lastBlock\[:\], data\[:\]\)|^lastBlock\[len\(data\)\] = pad|lastBlock"],
+    },
+    "GlueHpke": {
+        "owner": ["C06"], "tool": "gluetr",
+        "args": ["-ns", "TinkVerif.Gen.GlueHpke",
+                 "-pkg", "hybrid/internal/hpke", "-sub", "HpkeGo", "-consts", "hpkeV1",
+                 "-funcs", "kemSuiteID,hpkeSuiteID,keyScheduleContext,labelIKM,labelInfo"],
+    },
+    "GluePrefixKeys": {"owner": ["C05"], "tool": "gluetr", "args": _prefix_keys()},
+})
 
 
 def regenerate(prop, repo, verif, build, build_harness=None):
